@@ -2,7 +2,9 @@
 From Coq Require Import String List Bool ZArith.
 From Verif Require Import Base.Str C09.Model C09.Spec C09.Proofs.
 From Verif Require Import Base.Py Base.Py2 C09.Source2 C09.Source2g.
+From Verif Require C04.Model C09.Source2e.
 From VerifGen Require Import C09Tables C09Src2 C09Src2g.
+From VerifGen Require C09Src2e.
 Import ListNotations.
 Open Scope string_scope.
 
@@ -46,10 +48,47 @@ Print Assumptions c09_issues.
    reports exactly the released attributes, the expiry and the stored context of the request *)
 Theorem c09_e2e : forall x r s d ctx,
   create x = Issued r ->
-  same_federation x s d ctx -> plain_call x -> demands_met s r -> clock_within s r ->
+  same_federation x s d ctx -> ~ bare_shadowed (sp_acs s) d (sp_binding s) ->
+  plain_call x -> demands_met s r -> clock_within s r ->
   sp_accepts s r = Some (a_identity (arg x), i_nooa_cond r, Some ctx).
-Proof. exact e2e_holds. Qed.
+Proof. exact e2e_holds_guarded. Qed.
 Print Assumptions c09_e2e.
+
+(* The requester's consumer endpoints are part of `same_federation` AS CONFIGURED: in each of the three documented
+   spellings (bare URL / (URL, binding) / (URL, binding, index); tuple or list), any number per binding, and the
+   chosen consumer URL is ANY of those its metadata publishes for the binding the Response travels on.  The guard
+   excludes exactly the open finding C09-F3: *)
+Theorem c09_e2e_f3_refuted :
+  exists x s r ctx, create x = Issued r /\ e2e_hyp_b x s r = Some ctx
+                    /\ bare_shadowed (sp_acs s) (a_destination (arg x)) (sp_binding s)
+                    /\ sp_accepts s r = None.
+Proof. exact f3_refuted. Qed.
+Print Assumptions c09_e2e_f3_refuted.
+
+(* writing a specification as a pair or as an indexed triple, with whatever index, changes neither what the
+   requester publishes, nor what its service provider accepts, nor the end-to-end clause *)
+Theorem c09_acs_index_irrelevant : forall f x s r so,
+  sp_accepts (with_acs (reindex f (sp_acs s)) s) r = sp_accepts s r
+  /\ published (reindex f (sp_acs s)) = published (sp_acs s)
+  /\ e2e_b x (with_acs (reindex f (sp_acs s)) s) r so = e2e_b x s r so.
+Proof. exact index_irrelevant. Qed.
+Print Assumptions c09_acs_index_irrelevant.
+
+(* ... and the property notices when it does: a Config.endpoint that unpacks `endp, bind = endpspec` without the slice
+   `[0:2]` loses every indexed consumer URL, so the requester's own service provider turns down a Response that the
+   code as it is accepts (outside the C09-F3 class); on configurations without triples the two readings coincide,
+   which is why a check that configures pairs only cannot see the difference *)
+Theorem c09_noslice_refuted :
+  exists x s r ctx, create x = Issued r /\ e2e_hyp_b x s r = Some ctx
+                    /\ bare_shadowed_b (sp_acs s) (a_destination (arg x)) (sp_binding s) = false
+                    /\ sp_accepts s r = Some (a_identity (arg x), i_nooa_cond r, Some ctx)
+                    /\ sp_accepts_with unpack_noslice s r = None.
+Proof. exact noslice_refuted. Qed.
+Print Assumptions c09_noslice_refuted.
+
+Theorem c09_noslice_hidden_without_triples : forall acs, no_triples acs -> unpack_noslice acs = map conf_ep acs.
+Proof. exact noslice_hidden_without_triples. Qed.
+Print Assumptions c09_noslice_hidden_without_triples.
 
 (* the boolean clauses evaluated on the implementation's recorded outputs are the stated ones *)
 Theorem c09_spec_reflect : forall x o, spec_b x o = true <-> spec x o.
@@ -318,3 +357,34 @@ Theorem c09_source2_gather_signs : forall x,
     = want_sign_assertion x.
 Proof. exact gather_signs_are_model. Qed.
 Print Assumptions c09_source2_gather_signs.
+
+(* ---------------------------------------------------------------------------------------------------------
+   the receiving side's reading of its own consumer endpoints (round 6): config.py Config.endpoint and
+   client_base.py Base.service_urls as translated from the current source (coq/gen/C09Src2e.v) compute, for EVERY list
+   of endpoint specifications written as (URL, binding) pairs or (URL, binding, index) triples - tuple or list,
+   whatever value stands for the index -, the model's unpacking step conf_ep followed by C04's endpoint /
+   service_urls: the return addresses `sp_accepts` checks Destination against.  (A bare str specification is outside
+   the translator's fragment; those configurations are tied by the correspondence run.) *)
+Theorem c09_source2_endpoint :
+  forall (getattr_ext : pyval -> pyval -> pyval -> pyval) (type_ext : pyval -> pyval) (ix : string -> pyval),
+  (forall l, type_ext (PList l) = PStr "tuple" \/ type_ext (PList l) = PStr "list") ->
+  forall cfg ctx endps svc acs b,
+  is_bad ctx = false -> getattr_ext cfg (PStr "endpoints") ctx = PObj endps ->
+  is_obj endps = false -> assoc_py svc endps = Some (PList (map (C09.Source2e.enc_acs ix) acs)) -> C09.Source2e.no_bare acs ->
+  C09Src2e.src2_endpoint getattr_ext type_ext cfg (PStr svc) (PStr b) ctx
+  = C09.Source2e.enc_strs (C04.Model.endpoint (map conf_ep acs) b).
+Proof. exact C09.Source2e.src2_endpoint_is_model. Qed.
+Print Assumptions c09_source2_endpoint.
+
+Theorem c09_source2_service_urls :
+  forall (getattr_ext : pyval -> pyval -> pyval -> pyval) (type_ext : pyval -> pyval) (ix : string -> pyval),
+  (forall l, type_ext (PList l) = PStr "tuple" \/ type_ext (PList l) = PStr "list") ->
+  forall self cfg endps (s : spside) b,
+  p2_attr self "config" = cfg -> getattr_ext cfg (PStr "endpoints") (PStr "sp") = PObj endps ->
+  is_obj endps = false ->
+  assoc_py "assertion_consumer_service" endps = Some (PList (map (C09.Source2e.enc_acs ix) (sp_acs s))) ->
+  C09.Source2e.no_bare (sp_acs s) ->
+  C09Src2e.src2_service_urls getattr_ext type_ext self (PStr b)
+  = C09.Source2e.enc_urls (C04.Model.service_urls (sp_specs s) b).
+Proof. exact C09.Source2e.src2_service_urls_is_model. Qed.
+Print Assumptions c09_source2_service_urls.
